@@ -59,7 +59,7 @@ def run(ctx):
         ctx.check("C02-R3", "SessionRequest::%s reads '%s'" % (acc, key), len(sg) == 1 and ("Headers::get(self.0,'%s')" % key) in sg[0], "SessionRequest::%s does not return the '%s' field: %s" % (acc, key, sg), where(f))
     f = A.fn("wtransport_proto::headers::Headers::get")
     sg = [path_sig(p)[1] for p in nonpanic(walk(f))]
-    ctx.check("C02-R3", "Headers::get is a map lookup", len(sg) == 1 and "HashMap" in sg[0] and "::get(" in sg[0], "Headers::get changed: %s" % sg, where(f))
+    ctx.check("C02-R3", "Headers::get is a map lookup", len(sg) == 2 and any("HashMap" in x and "::get(" in x for x in sg), "Headers::get changed: %s" % sg, where(f))
 
     ctx.rule("C02-R6", "what the request is made of: (authority, path ++ ?query) from the URL, fields stored and looked up unchanged")
     shared.request_from_url(ctx, "C02-R6")
